@@ -484,6 +484,19 @@ func (c *SpecCtx) ident(name string) SV {
 			return SV{V: c.st.Cells[cell], T: cell.Typ}
 		}
 	}
+	// a local of this function that has not been declared on this path: its zero value
+	if c.fr != nil {
+		for _, b := range c.fr.Fn.Blocks {
+			for _, in := range b.Instrs {
+				if al, ok := in.(*ssa.Alloc); ok && al.Comment == name {
+					et := al.Type().(*types.Pointer).Elem()
+					if _, isStruct := et.Underlying().(*types.Struct); !isStruct || !isObjectStruct(et) {
+						return SV{V: e.zeroVal(c.st, et), T: et}
+					}
+				}
+			}
+		}
+	}
 	// package-level variables / constants
 	if m, ok := e.pkg.Members[name]; ok {
 		switch g := m.(type) {
@@ -869,6 +882,34 @@ func (c *SpecCtx) call(n *ast.CallExpr) SV {
 	case "chancap":
 		ch := c.coerceTo(c.eval(n.Args[0]), SChan)
 		return SV{V: e.regionRead(c.st, "chan.cap", []Sort{SChan}, SInt, ch), T: types.Typ[types.Int]}
+	case "mapkey", "mapidx":
+		// mapkey(N, i) / mapidx(N, k): the ghost enumeration of the N-th map range statement of this function
+		if c.fr == nil {
+			return c.bad("%s outside a function body", fn.Name)
+		}
+		nn := c.intArg(n.Args[0])
+		it, _ := c.st.Ghost[fmt.Sprintf("mapiter:%s:%s", e.fnName[c.fr.Fn], nn.S)].(*MapIter)
+		if it == nil {
+			return c.bad("%s: no map range #%s executed on this path", fn.Name, nn.S)
+		}
+		if fn.Name == "mapkey" {
+			return SV{V: App(it.ML.ksort, it.RKey, c.intArg(n.Args[1])), T: it.ML.mt.Key()}
+		}
+		return SV{V: App(SInt, it.RIdx, c.coerceTo(c.eval(n.Args[1]), it.ML.ksort)), T: types.Typ[types.Int]}
+	case "heldcond":
+		// heldcond(cond): the Locker of this *sync.Cond is in the lockset
+		cv := c.coerceTo(c.eval(n.Args[0]), SRef)
+		key := e.condLocker(c.st, cv)
+		var ds []T
+		for _, l := range c.st.Locks {
+			ds = append(ds, Eq(l.Key, key))
+		}
+		return SV{V: Or(ds...)}
+	case "now":
+		// now(x): the current value of a parameter or local (parameters otherwise denote their entry values)
+		sub := c.sub()
+		sub.inLoop = true
+		return sub.eval(n.Args[0])
 	case "nolocks":
 		if len(c.st.Locks) == 0 {
 			return SV{V: True}
